@@ -37,90 +37,74 @@ Proof.
     unfold crash; intros H; injection H as <- _; reflexivity.
 Qed.
 
-Lemma loop_inv fuel : forall acc c c' r,
-  I c ->
-  (fix loop (fuel : nat) (acc : list event) : CM (list event) :=
-     match fuel with
-     | O => ret acc
-     | S fuel' =>
-         fun c =>
-         match c_inbuf c with
-         | [] => (c, Ok acc)
-         | (f, blen) :: rest =>
-           let '(c1, res1) :=
-             match frame_buffer_check (c_max_in_frame c) f blen with
-             | FBReject r => (dispatch r ;;; ret []) c
-             | FBYield => receive_frame f (cset_inbuf c rest)
-             end in
-           match res1 with
-           | Ok evs => loop fuel' (acc ++ evs) c1
-           | Err e code sid rst =>
-               if is_protocol_error e then
-                 let '(c2, res2) := terminate_connection code c1 in
-                 match res2 with
-                 | Ok _ => (c2, Err e code sid rst)
-                 | Err e2 a b d => (c2, Err e2 a b d)
-                 | Crash p => (c2, Crash p)
-                 end
-               else (c1, Err e code sid rst)
-           | Crash ForeignError =>
-               let '(c2, res2) := terminate_connection EC_PROTOCOL_ERROR c1 in
-               match res2 with
-               | Ok _ => (c2, perr)
-               | Err e2 a b d => (c2, Err e2 a b d)
-               | Crash p => (c2, Crash p)
-               end
-           | Crash p => (c1, Crash p)
-           end
-         end
-     end) fuel acc c = (c', r) ->
-  I c'.
+Lemma recv_except_inv c1 res1 c2 r2 : I c1 -> recv_except c1 res1 = (c2, r2) -> I c2.
 Proof.
-  induction fuel as [|fuel IH]; intros acc c c' r Hi H; pose proof (I_wf c Hi) as Hwf; unfold wf_buf in Hwf.
-  - unfold ret in H. injection H as <- _. exact Hi.
-  - destruct (c_inbuf c) as [|[f blen] rest] eqn:Eb.
-    + injection H as <- _. exact Hi.
-    + inversion Hwf as [|? ? Hf Hrest]; subst.
-      destruct (frame_buffer_check (c_max_in_frame c) f blen) as [|rj] eqn:Ec.
-      * (* yielded *)
-        destruct (receive_frame f (cset_inbuf c rest)) as [c1 res1] eqn:Er.
-        assert (Hi0 : I (cset_inbuf c rest)) by (apply I_inbuf; [exact Hi | exact Hrest]).
-        pose proof (I_frame f Hf _ _ _ Hi0 Er) as Hi1.
-        destruct res1 as [evs|e code sid rst|p].
-        -- exact (IH _ _ _ _ Hi1 H).
-        -- destruct (is_protocol_error e).
-           ++ destruct (terminate_connection code c1) as [c2 res2] eqn:Et.
-              pose proof (I_terminate code _ _ _ Hi1 Et) as Hi2.
-              destruct res2; injection H as <- _; exact Hi2.
-           ++ injection H as <- _. exact Hi1.
-        -- destruct p; try (injection H as <- _; exact Hi1).
-           destruct (terminate_connection EC_PROTOCOL_ERROR c1) as [c2 res2] eqn:Et.
-           pose proof (I_terminate _ _ _ _ Hi1 Et) as Hi2.
-           destruct res2; injection H as <- _; exact Hi2.
-      * (* rejected by the frame buffer: nothing changes before the error handling *)
-        destruct ((dispatch rj ;;; ret []) c) as [c1 res1] eqn:Er.
-        assert (Hrj : match rj with RTooLarge | RBadBody _ => True | _ => False end).
-        { unfold frame_buffer_check in Ec.
-          destruct (bad_stream_association f); [injection Ec as <-; exact Logic.I|].
-          destruct (g_fb_len blen (c_max_in_frame c)); [injection Ec as <-; exact Logic.I|].
-          destruct (bad_promised_id f); [injection Ec as <-; exact Logic.I|].
-          destruct f; try discriminate; injection Ec as <-; exact Logic.I. }
-        pose proof (reject_no_change rj _ _ _ Er) as Hsame.
-        assert (c1 = c) by (destruct rj; try contradiction; exact Hsame). subst c1.
-        destruct res1 as [evs|e code sid rst|p].
-        -- (* a rejected frame never yields Ok *)
-           exfalso. destruct rj; try contradiction; unfold bind, dispatch, fail in Er; cbn in Er; try discriminate.
-           destruct (kind =? 0); [unfold lift_res, perr in Er; discriminate|].
-           destruct (kind =? 1); [unfold fail in Er; discriminate | unfold crash in Er; discriminate].
-        -- destruct (is_protocol_error e).
-           ++ destruct (terminate_connection code c) as [c2 res2] eqn:Et.
-              pose proof (I_terminate code _ _ _ Hi Et) as Hi2.
-              destruct res2; injection H as <- _; exact Hi2.
-           ++ injection H as <- _. exact Hi.
-        -- destruct p; try (injection H as <- _; exact Hi).
-           destruct (terminate_connection EC_PROTOCOL_ERROR c) as [c2 res2] eqn:Et.
-           pose proof (I_terminate _ _ _ _ Hi Et) as Hi2.
-           destruct res2; injection H as <- _; exact Hi2.
+  intros Hi1 H. unfold recv_except in H. destruct res1 as [evs|e code sid rst|p].
+  - injection H as <- _. exact Hi1.
+  - destruct (is_protocol_error e).
+    + destruct (terminate_connection code c1) as [c3 res2] eqn:Et.
+      pose proof (I_terminate code _ _ _ Hi1 Et) as Hi2.
+      destruct res2; injection H as <- _; exact Hi2.
+    + injection H as <- _. exact Hi1.
+  - destruct p; try (injection H as <- _; exact Hi1).
+    destruct (terminate_connection EC_PROTOCOL_ERROR c1) as [c3 res2] eqn:Et.
+    pose proof (I_terminate _ _ _ _ Hi1 Et) as Hi2.
+    destruct res2; injection H as <- _; exact Hi2.
+Qed.
+
+Lemma reject_never_ok limit f blen rj c c1 evs :
+  frame_buffer_check limit f blen = FBReject rj -> (dispatch rj ;;; ret ([] : list event)) c = (c1, Ok evs) -> False.
+Proof.
+  intros Ec Er.
+  assert (Hrj : match rj with RTooLarge | RBadBody _ => True | _ => False end).
+  { unfold frame_buffer_check in Ec.
+    destruct (bad_stream_association f); [injection Ec as <-; exact Logic.I|].
+    destruct (g_fb_len blen limit); [injection Ec as <-; exact Logic.I|].
+    destruct (bad_promised_id f); [injection Ec as <-; exact Logic.I|].
+    destruct f; try discriminate; injection Ec as <-; exact Logic.I. }
+  destruct rj; try contradiction; unfold bind, dispatch, fail in Er; cbn in Er; try discriminate.
+  destruct (kind =? 0); [unfold lift_res, perr in Er; discriminate|].
+  destruct (kind =? 1); [unfold fail in Er; discriminate | unfold crash in Er; discriminate].
+Qed.
+
+Lemma reject_same_state limit f blen rj c c1 r :
+  frame_buffer_check limit f blen = FBReject rj -> (dispatch rj ;;; ret ([] : list event)) c = (c1, r) -> c1 = c.
+Proof.
+  intros Ec Er.
+  assert (Hrj : match rj with RTooLarge | RBadBody _ => True | _ => False end).
+  { unfold frame_buffer_check in Ec.
+    destruct (bad_stream_association f); [injection Ec as <-; exact Logic.I|].
+    destruct (g_fb_len blen limit); [injection Ec as <-; exact Logic.I|].
+    destruct (bad_promised_id f); [injection Ec as <-; exact Logic.I|].
+    destruct f; try discriminate; injection Ec as <-; exact Logic.I. }
+  pose proof (reject_no_change rj _ _ _ Er) as Hsame. destruct rj; try contradiction; exact Hsame.
+Qed.
+
+(* the loop of receive_data: the invariant holds at the end, and what is left in the buffer is a suffix of what was there *)
+Lemma recv_core_inv fs : forall acc c c' r rem,
+  I c -> Forall (fun e => wf (fst e)) fs -> recv_core fs acc c = (c', r, rem) ->
+  I c' /\ Forall (fun e => wf (fst e)) rem.
+Proof.
+  induction fs as [|[f blen] rest IH]; intros acc c c' r rem Hi Hwf H; cbn [recv_core] in H.
+  - injection H as <- _ <-. split; [exact Hi|constructor].
+  - inversion Hwf as [|? ? Hf Hrest]; subst.
+    destruct (frame_buffer_check (c_max_in_frame c) f blen) as [|rj] eqn:Ec.
+    + destruct (receive_frame f c) as [c1 res1] eqn:Er.
+      pose proof (I_frame f Hf _ _ _ Hi Er) as Hi1.
+      destruct res1 as [evs|e code sid rst|p].
+      * exact (IH _ _ _ _ _ Hi1 Hrest H).
+      * destruct (recv_except c1 _) as [c2 r2] eqn:Ee. injection H as <- _ <-.
+        split; [exact (recv_except_inv _ _ _ _ Hi1 Ee) | exact Hrest].
+      * destruct (recv_except c1 _) as [c2 r2] eqn:Ee. injection H as <- _ <-.
+        split; [exact (recv_except_inv _ _ _ _ Hi1 Ee) | exact Hrest].
+    + destruct ((dispatch rj ;;; ret []) c) as [c1 res1] eqn:Er.
+      pose proof (reject_same_state _ _ _ _ _ _ _ Ec Er). subst c1.
+      destruct res1 as [evs|e code sid rst|p].
+      * exfalso. exact (reject_never_ok _ _ _ _ _ _ _ Ec Er).
+      * destruct (recv_except c _) as [c2 r2] eqn:Ee. injection H as <- _ <-.
+        split; [exact (recv_except_inv _ _ _ _ Hi Ee) | exact Hwf].
+      * destruct (recv_except c _) as [c2 r2] eqn:Ee. injection H as <- _ <-.
+        split; [exact (recv_except_inv _ _ _ _ Hi Ee) | exact Hwf].
 Qed.
 
 (* receive_data as a whole *)
@@ -128,10 +112,11 @@ Lemma api_receive_inv fs c c' r :
   I c -> Forall (fun e => wf (fst e)) fs -> api_receive fs c = (c', r) -> I c'.
 Proof.
   intros Hi Hfs H. unfold api_receive in H.
-  unfold bind at 1 in H. unfold modify at 1 in H. unfold bind at 1 in H. unfold get at 1 in H.
-  assert (Hi' : I (cset_inbuf c (c_inbuf c ++ fs))).
-  { apply I_inbuf; [exact Hi|]. apply Forall_app. split; [exact (I_wf c Hi) | exact Hfs]. }
-  exact (loop_inv _ _ _ _ _ Hi' H).
+  destruct (recv_core (c_inbuf c ++ fs) [] c) as [[c1 r1] rem] eqn:E. injection H as <- _.
+  assert (Hall : Forall (fun e => wf (fst e)) (c_inbuf c ++ fs)).
+  { apply Forall_app. split; [exact (I_wf c Hi) | exact Hfs]. }
+  destruct (recv_core_inv _ _ _ _ _ _ Hi Hall E) as [Hi1 Hrem].
+  apply I_inbuf; assumption.
 Qed.
 End Lift.
 
